@@ -46,6 +46,7 @@ type Program struct {
 	succCache map[*ssa.Function][]*ssa.Function
 	rootsUsed map[*ssa.Function]bool
 	auditing  bool
+	roleCache map[string]storeRoles
 	vrefs     map[*ssa.Function][]*ssa.Function
 	tinst     map[string][]*ssa.Function
 	rootReach map[*ssa.Function]bool
